@@ -518,6 +518,10 @@ var constLits = []constLit{
 	{"string", `"hello"`}, {"empty-string", `""`}, {"guid-string", goodGUID}, {"guid-string-no-dashes", `"e215a946b26f4567a27613136f0a1708"`},
 	{"guid-string-too-short", `"e215a946-b26f-4567-a276-13136f0a170"`}, {"guid-string-too-long", `"e215a946-b26f-4567-a276-13136f0a17081"`},
 	{"guid-string-non-hex", `"zzzzzzzz-zzzz-zzzz-zzzz-zzzzzzzzzzzz"`},
+	// the right LENGTH (32 or 36 characters) but not 32 hex digits
+	{"guid-string-36-chars-31-digits", `"e215a946-b26f-4567-a276-13136f0a-708"`}, {"guid-string-36-digits-no-dashes", `"e215a946b26f4567a27613136f0a1708abcd"`},
+	{"guid-string-32-chars-with-dashes", `"e215a946-b26f-4567-a276-13136f0a"`}, {"guid-string-36-dashes", `"------------------------------------"`},
+	{"guid-string-32-dashes", `"--------------------------------"`}, {"guid-string-one-non-hex-digit", `"e215a946-b26f-4567-a276-13136f0a170g"`},
 	{"true", "true"}, {"false", "false"},
 }
 
